@@ -4,24 +4,12 @@ import MythVerif.Proofs.WsQueueTsoTac
 namespace MythVerif.WsqTso
 open MythVerif.Wsq
 
-theorem mwin_cons (A : List Elem) (ptr : Int → Option Elem) (lb top : Int) (e : Elem)
-    (hmwin : ∀ k : Nat, k < A.length → lb + k < top → ptr (lb + k) = A[k]?)
-    (hp : ptr (lb - 1) = some e) :
-    ∀ k : Nat, k < (e :: A).length → lb - 1 + k < top → ptr (lb - 1 + k) = (e :: A)[k]? := by
-  intro k hk hk2
-  cases k with
-  | zero => simp [hp]
-  | succ j =>
-    have h1 := hmwin j (by simp at hk; omega) (by omega)
-    simp only [List.getElem?_cons_succ]
-    rw [← h1]; congr 1; omega
-
 set_option maxHeartbeats 4000000 in
 theorem f_T_baseI (s : St) (p : Pid) (e : Elem) (ok : Bool) : Inv s → s.lock = .thief p →
     s.bufT p = [.baseI (s.lb - 1) e] → s.tpc p = .tp4 ok → s.ptr (s.lb - 1) = some e →
     Inv (applySto { s with bufT := upd s.bufT p [] } (.baseI (s.lb - 1) e)) := by
   intro h hl hb hpc hp
-  have hmw := mwin_cons s.A s.ptr s.lb s.top e h.mwin hp
+  have hmw := mwin_cons s.A s.ptr s.lb s.top _ e h.mwin hp
   simp only [applySto]
   cases hopc : s.opc
   all_goals (cases h; simp only [hopc, ownerLocked, carry, resetting, ownerFlight] at *)
